@@ -226,6 +226,9 @@ class PrecipitateModel (PrecipitateBase):
 
             self.PSDXalpha[p][:,0], self.PSDXbeta[p][:,0] = self.therm.getInterfacialComposition(T, self.particleGibbs(self.PBM[p].PSDbounds, self.precipitateParameters[p].phase), precPhase=self.precipitateParameters[p].phase)
             self.RdrivingForceIndex[p] = np.amax([np.argmax(self.PSDXalpha[p][:,0] != -1) - 1, 0])
+            #argmax gives 0 if no size class is stable, so point to the last class in that case (handled below)
+            if not np.any(self.PSDXalpha[p][:,0] != -1):
+                self.RdrivingForceIndex[p] = len(self.PSDXalpha[p][:,0]) - 1
             self.precipitateParameters[p].RdrivingForceLimit = self.PBM[p].PSDbounds[self.RdrivingForceIndex[p]]
 
             #Sets particle radii smaller than driving force limit to driving force limit composition
